@@ -83,6 +83,10 @@ EXPLANATION += (
     ' Mean and variance of a node are S / N and (Q - S^2/N)/(N - 1) of the statistics summed over its leaves, compared as rational functions (R-ARITH/moments).'
 )
 
+EXPLANATION += (
+    ' Round 10: the batch search of the on-disk transposition stops only after an end of the batch was recorded (R-COVER/batch-search).'
+)
+
 RULE_TEXT = (
     "one obligation per arithmetic relation (quotient, multiplier, "
     "comparison operator, conjunction operand) and per guard; polynomial "
